@@ -30,6 +30,10 @@ POOL_LOCAL = [
     ("der2.txt", {"query": "./n1.json/-/cat-q/der2.txt", "title": "Derived 2"}, "n1.json"),
     ("bad.txt", "one/boom/bad.txt", None),
     ("bad2.txt", "lit-a/needs/bad2.txt", None),
+    # other ways to fail (no Python traceback is recorded for these): unknown command, failing link argument, conversion
+    ("bad3.txt", "lit-a/nosuchcmd/bad3.txt", None),
+    ("bad4.txt", "lit-a/cat-~X~/one/boom~E/bad4.txt", None),
+    ("bad5.txt", {"query": "lit-a/add-x/bad5.txt", "title": "Bad 5"}, None),
     ("e1.txt", "lit-/ident/e1.txt", None),
     ("dere.txt", "./e1.txt/-/cat-tail/dere.txt", "e1.txt"),
 ]
@@ -99,7 +103,8 @@ def gen_scenario(rnd):
             "sub2": [[a, b, c] for a, b, c in sub2],
             "order": rnd.choice(["RECIPES,sd,sd2", "sd,RECIPES,sd2", "sd,sd2,RECIPES", "sd2,sd,RECIPES"]),
             "subname": "sd", "backend": rnd.choice(["memory", "memory", "file"]),
-            "mount": rnd.choice(["direct", "mount1", "mount2"]), "cache": rnd.choice(["none", "none", "memory"])}
+            "mount": rnd.choice(["direct", "mount1", "mount2"]), "cache": rnd.choice(["none", "none", "memory"]),
+            "plain_mount": rnd.random() < 0.4}
 
 
 def yaml_text(scn):
@@ -138,7 +143,8 @@ class Case:
         if scn["mount"] == "direct":
             self.store = self.rs
         else:
-            self.store = MountPointStore().with_indexer()
+            # the global store of liquer is a mount-point store behind an indexer; a plain one is as legitimate
+            self.store = MountPointStore() if scn.get("plain_mount") else MountPointStore().with_indexer()
             self.store.mount(self.prefix, self.rs)
         set_store(self.store)
         # declared keys (root keys) -> definition
